@@ -20,7 +20,7 @@ sys.path.insert(0, os.path.join(VERIF, "bin"))
 from props import PROPS  # noqa: E402
 
 GOENV = dict(os.environ, GOFLAGS="-mod=mod", GOPROXY="off", GOSUMDB="off", GOTOOLCHAIN="local",
-             CGO_ENABLED="0")
+             CGO_ENABLED="0", VERIF_REPO_DIR=REPO)   # VERIF_REPO_DIR: the tree under test, for drivers that build a cmd/ binary
 FORBIDDEN = re.compile(r"\b(Admitted|admit|Axiom|Axioms|Parameter|Parameters|Conjecture|Conjectures|"
                        r"Admit Obligations|bypass_check|native_compute)\b|Unset Guard|Unset Positivity|"
                        r"Unset Universe|type-in-type|impredicative-set")
@@ -219,11 +219,21 @@ def eval_shard(path):
     return pairs, classes, out
 
 
+REMAKE_TARGETS = []
+
+
 def evaluate(outdir):
     shards = sorted(glob.glob(os.path.join(outdir, "Cases_*.v")), key=lambda p: int(re.findall(r"_(\d+)\.v", p)[0]))
     from concurrent.futures import ThreadPoolExecutor
-    with ThreadPoolExecutor(max_workers=16) as ex:
-        res = list(ex.map(eval_shard, shards))
+    for attempt in (1, 2, 3):
+        with ThreadPoolExecutor(max_workers=16) as ex:
+            res = list(ex.map(eval_shard, shards))
+        stale = [out for (p, k, out) in res if p is None and "inconsistent assumptions" in (out or "")]
+        if not stale or not REMAKE_TARGETS:
+            break
+        # a concurrent run of another property rebuilt a shared library between our make and our evaluation:
+        # bring our targets up to date again and evaluate once more
+        make_targets(REMAKE_TARGETS)
     pairs, classes = [], []
     for (p, k, out), sh in zip(res, shards):
         if p is None:
@@ -316,7 +326,8 @@ def check(pid, prop, tier, seed, n, scratch, t0, only_index):
             broken.append("translator: " + msg[-1500:])
 
     # 2. proofs
-    rc, out = make_targets(["props/%s.vo" % pid, "corr/%s.vo" % prop["corr"]] + extra_targets)
+    REMAKE_TARGETS[:] = ["props/%s.vo" % pid, "corr/%s.vo" % prop["corr"]] + extra_targets
+    rc, out = make_targets(REMAKE_TARGETS)
     proofs_ok = rc == 0
     if not proofs_ok:
         m = re.search(r'File "\./([^"]+)", line (\d+)', out)
@@ -382,6 +393,10 @@ def check(pid, prop, tier, seed, n, scratch, t0, only_index):
             if rc == 3:
                 print("HARNESS-ERROR property=%s: %s" % (pid, out[-400:].replace("\n", " ")))
                 return 2
+        if rc == 4:   # the code under test failed a set-up step its scripted peers make succeed; cases were still written
+            broken.append("correspondence: " + out.strip().split("\n")[-1][:300])
+            notes.append(out[-3000:])
+            rc = 0
         if rc != 0:
             broken.append("driver failed (exit %d)" % rc)
             notes.append(out[-3000:])
@@ -416,6 +431,10 @@ def check(pid, prop, tier, seed, n, scratch, t0, only_index):
             if rcx == 3:
                 print("HARNESS-ERROR property=%s: %s" % (pid, outx[-400:].replace("\n", " ")))
                 return 2
+        if rcx == 4:
+            broken.append("correspondence (%s): %s" % (x["driver"], outx.strip().split("\n")[-1][:300]))
+            notes.append(outx[-3000:])
+            rcx = 0
         if rcx != 0:
             broken.append("driver %s failed (exit %d)" % (x["driver"], rcx))
             notes.append(outx[-3000:])
@@ -451,7 +470,7 @@ def check(pid, prop, tier, seed, n, scratch, t0, only_index):
             s2 = seed * 1000003 + k
             outdir = os.path.join(scratch, "run%d" % k)
             rc, out = run_driver(binp, prop, s2, n, tier, outdir)
-            if rc != 0:
+            if rc not in (0, 4):
                 break
             p2, k2, err = evaluate(outdir)
             if p2 is None:
